@@ -570,15 +570,30 @@ def m_into(I, path, args):
         if _norm_ty(dst) == _norm_ty(src_ty):
             return v
         # crate-defined From impl for destination type?
+        cands = []
         for prefix in I.impls.get(('From', dl), []):
             n = prefix + '::from'
             if n in I.crate.index:
                 lst = I.crate.index[n]
                 for w in range(len(lst)):
                     f = I.crate.func(n, w)
-                    if strip_generics(f.argtypes[0]).split('::')[-1] == sl:
-                        I.encoded.add(n)
-                        return I.exec_body(f, [v])
+                    at = strip_generics(f.argtypes[0])
+                    if at.split('::')[-1] == sl:
+                        cands.append((n, f, at))
+        if cands:
+            # several source types may share their last path segment (io::Error, anyhow::Error, ...): prefer the
+            # candidate whose full path agrees with the source type of this call
+            st = strip_generics(src_ty)
+            exact = [x for x in cands if x[2] == st or x[2].endswith('::' + st) or st.endswith('::' + x[2])]
+            if len(exact) == 1 or (exact and len(cands) > 1):
+                n, f, _ = exact[0]
+                I.encoded.add(n)
+                return I.exec_body(f, [v])
+            if len(cands) == 1:
+                n, f, _ = cands[0]
+                I.encoded.add(n)
+                return I.exec_body(f, [v])
+            raise Unsupported('ambiguous From impl for ' + dst + ' from ' + src_ty + ': ' + ', '.join(x[2] for x in cands))
         if dl == 'Vec' and sl in ('String', 'str'):
             from . import strings
             return strings.into_bytes(I, v)
@@ -599,7 +614,7 @@ def _is_some(o):
 
 @R.model(r'^std::option::Option::(is_some|is_none|unwrap|expect|take|map|and_then|unwrap_or|unwrap_or_else|unwrap_or_default|'
          r'ok_or|ok_or_else|as_ref|as_mut|as_deref|as_deref_mut|cloned|copied|flatten|is_some_and|is_none_or|or|or_else|'
-         r'filter|map_or|map_or_else|replace|insert|get_or_insert_with|iter|ok|xor|zip|and|unwrap_unchecked|inspect)$')
+         r'filter|map_or|map_or_else|replace|insert|get_or_insert_with|iter|ok|xor|zip|and|unwrap_unchecked|inspect|transpose|get_or_insert|take_if|unzip|iter_mut)$')
 def m_option(I, path, args):
     meth = strip_generics(path).split('::')[-1]
     a0 = args[0]
@@ -697,14 +712,35 @@ def m_option(I, path, args):
         return Some(Tuple(o.fields[0], b.fields[0])) if some and b.variant == 1 else NONE()
     if meth == 'ok':
         raise Unsupported('Option::ok')
-    if meth == 'iter':
+    if meth == 'transpose':
+        # Option<Result<T,E>> -> Result<Option<T>,E>
+        if not some:
+            return Ok(NONE())
+        inner = o.fields[0]
+        return Ok(Some(inner.fields[0])) if inner.variant == 0 else inner
+    if meth == 'get_or_insert':
+        if not some:
+            nv = Some(args[1])
+            a0.lv.set(nv)
+            o = nv
+        return Ref(LV(o.fields, 0))
+    if meth == 'take_if':
+        if some and I.ctx.branch(I.call_value(args[1], [Ref(LV(o.fields, 0))])):
+            a0.lv.set(NONE())
+            return o
+        return NONE()
+    if meth == 'unzip':
+        if not some:
+            return Tuple(NONE(), NONE())
+        return Tuple(Some(o.fields[0].fields[0]), Some(o.fields[0].fields[1]))
+    if meth in ('iter', 'iter_mut'):
         from .iterators import ListIter
         return ListIter([Ref(LV(o.fields, 0))] if some else [])
     raise Unsupported('Option::' + meth)
 
 
 @R.model(r'^std::result::Result::(is_ok|is_err|unwrap|expect|unwrap_err|expect_err|map|map_err|and_then|ok|err|unwrap_or|'
-         r'unwrap_or_else|unwrap_or_default|as_ref|as_mut|or_else|is_ok_and|is_err_and|map_or|map_or_else|and|or|iter|inspect_err)$')
+         r'unwrap_or_else|unwrap_or_default|as_ref|as_mut|or_else|is_ok_and|is_err_and|map_or|map_or_else|and|or|iter|inspect_err|inspect|transpose|cloned|copied|flatten|as_deref)$')
 def m_result(I, path, args):
     meth = strip_generics(path).split('::')[-1]
     a0 = args[0]
@@ -732,6 +768,27 @@ def m_result(I, path, args):
         if not ok:
             I.call_value(args[1], [Ref(LV(r.fields, 0))])
         return r
+    if meth == 'inspect':
+        if ok:
+            I.call_value(args[1], [Ref(LV(r.fields, 0))])
+        return r
+    if meth == 'transpose':
+        # Result<Option<T>,E> -> Option<Result<T,E>>
+        if not ok:
+            return Some(r)
+        inner = r.fields[0]
+        return Some(Ok(inner.fields[0])) if inner.variant == 1 else NONE()
+    if meth in ('cloned', 'copied'):
+        return Ok(clone_val(deref1(r.fields[0]))) if ok else r
+    if meth == 'flatten':
+        return r.fields[0] if ok else r
+    if meth == 'as_deref':
+        if not ok:
+            return Err(Ref(LV(r.fields, 0)))
+        inner = r.fields[0]
+        if isinstance(inner, BoxV):
+            return Ok(Ref(LV(inner.cell, 0)))
+        return Ok(Ref(LV(r.fields, 0)))
     if meth == 'and_then':
         return I.call_value(args[1], [r.fields[0]]) if ok else r
     if meth == 'and':
